@@ -26,8 +26,8 @@ Open Scope string_scope.
 Open Scope list_scope.
 
 Theorem C02_strict_rules_wellformed :
-  forall plines metric_ok lname_ok lvalue_ok dur_ok int_ok thanos lines ds yerr g r,
-    In g (f_groups (parse_strict plines metric_ok lname_ok lvalue_ok dur_ok int_ok thanos lines ds yerr)) ->
+  forall plines metric_ok lname_ok lvalue_ok dur_ok int_ok null_ok thanos lines ds yerr g r,
+    In g (f_groups (parse_strict plines metric_ok lname_ok lvalue_ok dur_ok int_ok null_ok thanos lines ds yerr)) ->
     In r (g_rules g) -> wellformed r.
 Proof. intros. eapply strict_rules_wellformed; eassumption. Qed.
 Print Assumptions C02_strict_rules_wellformed.
@@ -41,8 +41,8 @@ Print Assumptions C02_relaxed_rules_wellformed.
 
 (** Routing, for the file either parser mode returns. *)
 Theorem C02_routing_total_strict :
-  forall plines metric_ok lname_ok lvalue_ok dur_ok int_ok thanos lines ds yerr base e,
-    In e (read_rules (parse_strict plines metric_ok lname_ok lvalue_ok dur_ok int_ok thanos lines ds yerr)) ->
+  forall plines metric_ok lname_ok lvalue_ok dur_ok int_ok null_ok thanos lines ds yerr base e,
+    In e (read_rules (parse_strict plines metric_ok lname_ok lvalue_ok dur_ok int_ok null_ok thanos lines ds yerr)) ->
     (has_error e = true /\ checks_for_entry base e = [yaml_parse_reporter] /\
      exists p, parse_rule_error e = Ok p /\ p_fatal p = true /\ p_first p = p_last p) \/
     (has_error e = false /\ checks_for_entry base e = base e /\
@@ -89,11 +89,11 @@ Definition entry_inside (T : nat) (e : entry) : Prop :=
   (forall m, e_glabels e = Some m -> ymap_ok T m).
 
 Theorem C02_lines_strict :
-  forall plines metric_ok lname_ok lvalue_ok dur_ok int_ok thanos all_lines ds yerr e,
+  forall plines metric_ok lname_ok lvalue_ok dur_ok int_ok null_ok thanos all_lines ds yerr e,
     plines_inside plines ->
     docs_fit (List.length all_lines) ds = true ->
     (forall pe, yerr = Some pe -> 1 <= pe_line pe /\ pe_line pe <= List.length all_lines) ->
-    In e (read_rules (parse_strict plines metric_ok lname_ok lvalue_ok dur_ok int_ok thanos all_lines ds yerr)) ->
+    In e (read_rules (parse_strict plines metric_ok lname_ok lvalue_ok dur_ok int_ok null_ok thanos all_lines ds yerr)) ->
     entry_inside (List.length all_lines) e.
 Proof.
   intros until e. intros Hp Hd Hy Hin.
@@ -113,7 +113,7 @@ Theorem C02_lines_relaxed :
 Proof.
   intros until e. intros Hp Hd Hy Hf Hin.
   eapply entries_report_inside; [|eapply relaxed_rules_wellformed; exact Hf|exact Hin].
-  eapply (relaxed_lines_inside plines metric_ok lname_ok lvalue_ok lvalue_ok (fun _ => true));
+  eapply (relaxed_lines_inside plines metric_ok lname_ok lvalue_ok lvalue_ok (fun _ => true) (fun _ => true));
     [exact Hp|apply le_n|exact Hy|apply docs_fit_sound; exact Hd|exact Hf].
 Qed.
 Print Assumptions C02_lines_relaxed.
@@ -149,11 +149,13 @@ Proof.
 Qed.
 Print Assumptions C02_render_total.
 
-(** The expansion panics exactly for ranges inverted by more than one (the class of defect aba0d51 repaired) ... *)
-Theorem C02_render_crash_iff :
-  forall first last : Z, (exists w, expand first last = Crash w) <-> (last < first - 1)%Z.
-Proof. exact expand_crash_iff. Qed.
-Print Assumptions C02_render_crash_iff.
+(** Since fix 5f804fb (my candidate patch) the expansion is total: no range, inverted or not, can make the JSON
+    reporter panic; an inverted range is rendered as its first line.  (Before the fix the model had a [Crash] outcome
+    for Last < First - 1 and this theorem was [C02_render_crash_iff].) *)
+Theorem C02_render_expand_total :
+  forall first last : Z, exists l, expand first last = Ok l /\ ((last < first)%Z -> l = [first]).
+Proof. exact expand_total. Qed.
+Print Assumptions C02_render_expand_total.
 
 (** ... while the console loop indexes inside the file for ANY range. *)
 Theorem C02_console_in_bounds :
@@ -163,18 +165,18 @@ Print Assumptions C02_console_in_bounds.
 
 (** Put together for the always-enabled error check, strict mode: the yaml/parse problem of every error entry renders. *)
 Theorem C02_error_report_renders_strict :
-  forall plines metric_ok lname_ok lvalue_ok dur_ok int_ok thanos all_lines ds yerr e p,
+  forall plines metric_ok lname_ok lvalue_ok dur_ok int_ok null_ok thanos all_lines ds yerr e p,
     plines_inside plines ->
     docs_fit (List.length all_lines) ds = true ->
     (forall pe, yerr = Some pe -> 1 <= pe_line pe /\ pe_line pe <= List.length all_lines) ->
-    In e (read_rules (parse_strict plines metric_ok lname_ok lvalue_ok dur_ok int_ok thanos all_lines ds yerr)) ->
+    In e (read_rules (parse_strict plines metric_ok lname_ok lvalue_ok dur_ok int_ok null_ok thanos all_lines ds yerr)) ->
     parse_rule_error e = Ok p ->
     expand (Z.of_nat (p_first p)) (Z.of_nat (p_last p)) = Ok [Z.of_nat (p_first p)] /\
     (1 <= Z.of_nat (p_first p) <= Z.of_nat (List.length all_lines))%Z /\
     console_plain (Z.of_nat (List.length all_lines)) (Z.of_nat (p_first p)) (Z.of_nat (p_last p)) = [Z.of_nat (p_first p)].
 Proof.
   intros until p. intros Hp Hd Hy Hin E.
-  destruct (C02_lines_strict _ _ _ _ _ _ _ _ _ _ _ Hp Hd Hy Hin) as (A & _). destruct (A p E) as [[A1 A2] _].
+  destruct (C02_lines_strict _ _ _ _ _ _ _ _ _ _ _ _ Hp Hd Hy Hin) as (A & _). destruct (A p E) as [[A1 A2] _].
   assert (Heq : p_first p = p_last p).
   { unfold parse_rule_error in E. destruct (e_perr e); [inversion E; reflexivity|]. destruct (r_error (e_rule e)); [inversion E; reflexivity|discriminate]. }
   rewrite <- Heq.
@@ -193,7 +195,7 @@ Definition ex_empty_rules : node :=
      Sq "!!seq" 4 3 4 [Mp "!!map" 4 5 4 []; Sc "!!null" "~" 5 5 0]]]]].
 
 Example C02_nonvacuous :
-  let f := parse_strict pl0 yes yes yes yes (fun _ => true) false [] [(ex_empty_rules, 0)] None in
+  let f := parse_strict pl0 yes yes yes yes (fun _ => true) (fun _ => true) false [] [(ex_empty_rules, 0)] None in
   map (fun e => (has_error e, checks_for_entry (fun _ => ["promql/syntax"]) e,
                  match parse_rule_error e with Ok p => Some (p_first p) | Crash _ => None end)) (read_rules f)
   = [(true, ["yaml/parse"], Some 4); (true, ["yaml/parse"], Some 5)].
